@@ -28,6 +28,10 @@ package ast
 //@   loop 1 invariant forall k :: { tokens[k] } index <= k && k < current_index ==> ign(tokens[k].TokenType)
 //@   loop 1 decreases len(tokens) - current_index
 
+//@ specfunc amtAll(Slice, Int) Bool
+//@ specfunc amtSkip(Slice, Int) Int
+//@ specfunc amtTake(Slice, Int) Int
+//@ specfunc amtLast(Slice, Int) Int
 //@ func parse_command [C08 C15]
 //@   noframe
 //@   sigreads [C15]
@@ -48,6 +52,8 @@ package ast
 //@   ensures either: result.2 != nil || result.1 < len(tokens)
 //@   loop 1 invariant 0 <= current_index && current_index < len(tokens) && current_token == tokens[current_index] && token_index < current_index
 //@   loop 1 invariant sig: !ign(current_token.TokenType) [C15]
+//@   ensures amounts: result.2 == nil ==> result.0.All == amtAll(tokens, token_index + 1) && result.0.Skip == amtSkip(tokens, token_index + 1) && result.0.Take == amtTake(tokens, token_index + 1) && result.0.Last == amtLast(tokens, token_index + 1) [C04]
+//@   loop 1 invariant amounts: findCommand.All == amtAll(tokens, token_index + 1) && findCommand.Skip == amtSkip(tokens, token_index + 1) && findCommand.Take == amtTake(tokens, token_index + 1) && findCommand.Last == amtLast(tokens, token_index + 1) [C04]
 
 //@ func parse_replace [C08 C15]
 //@   noframe
@@ -61,6 +67,9 @@ package ast
 //@   loop 2 invariant 0 <= current_index && current_index < len(tokens) && token_index < current_index && current_token != nil
 //@   loop 1 invariant sig: !ign(current_token.TokenType) [C15]
 //@   loop 2 invariant sig: !ign(current_token.TokenType) [C15]
+//@   ensures amounts: result.2 == nil ==> result.0.All == amtAll(tokens, token_index + 1) && result.0.Skip == amtSkip(tokens, token_index + 1) && result.0.Take == amtTake(tokens, token_index + 1) && result.0.Last == amtLast(tokens, token_index + 1) [C04]
+//@   loop 1 invariant amounts: replaceCommand.All == amtAll(tokens, token_index + 1) && replaceCommand.Skip == amtSkip(tokens, token_index + 1) && replaceCommand.Take == amtTake(tokens, token_index + 1) && replaceCommand.Last == amtLast(tokens, token_index + 1) [C04]
+//@   loop 2 invariant amounts: replaceCommand.All == amtAll(tokens, token_index + 1) && replaceCommand.Skip == amtSkip(tokens, token_index + 1) && replaceCommand.Take == amtTake(tokens, token_index + 1) && replaceCommand.Last == amtLast(tokens, token_index + 1) [C04]
 
 //@ func parse_set [C08 C15]
 //@   noframe
@@ -352,6 +361,7 @@ package ast
 //@   ensures take: (ta == TAKE || ta == TOP) && nb ==> result.5 == nil && !result.0 && result.1 == 0 && result.2 == vb && result.3 == 0 && result.4 == b + 1 [C04]
 //@   ensures last: ta == LAST && nb ==> result.5 == nil && result.0 && result.1 == 0 && result.2 == 0 && result.3 == vb && result.4 == b + 1 [C04]
 //@   ensures other: !(ta == ALL || ta == SKIP || ta == TAKE || ta == TOP || ta == LAST) ==> result.5 != nil [C04]
+//@   assumes named: result.0 == amtAll(tokens, token_index) && result.1 == amtSkip(tokens, token_index) && result.2 == amtTake(tokens, token_index) && result.3 == amtLast(tokens, token_index) [C04]
 
 //@ func parse_process_statements [C08 C15]
 //@   noframe
@@ -394,6 +404,7 @@ package ast
 //@   ensures nohole: result.2 == nil ==> wfbox(result.0)
 //@   ensures index: result.2 == nil ==> index < result.1 && result.1 <= len(tokens)
 //@   loop 1 invariant index < token_index && token_index <= len(tokens) && wfbox(lhs)
+//@   atcall parse_expr_pratt rightoperand: defined(lprec) ==> lbp(tokens[token_index].TokenType) >= minPrecedence && arg2 > lbp(tokens[token_index].TokenType) && arg1 == token_index + 1 [C11]
 
 //@ func parse [C08 C15 C13]
 //@   noframe
@@ -648,6 +659,8 @@ package ast
 // it) when \x is not followed by two hex digits.
 // Totality (C08): no panic for any input (every state the loop can end in has a case in the final
 // switch), both loops terminate, and a token other than EOF consumes input.
+// the whitespace characters of ASCII (documented as \s)
+//@ pred wsByte(c Int) := c == ' ' || c == 9 || c == 10 || c == 11 || c == 12 || c == 13
 //@ func (*Lexer).getNextToken [C16 C08 C15]
 //@   requires lexOk(s)
 //@   let p0 := s.r.pos
@@ -661,6 +674,10 @@ package ast
 //@   loop 2 invariant lexOk(s) && s.r.data == old(s.r.data) && s.r == old(s.r) && token != nil && s.r.pos > p0 && len(s.position.store) >= 2 && current_state == SSTART
 //@   loop 2 invariant curr_ch != 0 ==> s.r.pos <= len(s.r.data)
 //@   loop 2 decreases len(s.r.data) - s.r.pos + (curr_ch == 0 ? 0 : 1) [C08]
+//@   loop 1 ghost last Int := 0 ;; ch
+//@   loop 1 invariant commentend: (current_state == SBLOCKCOMMENT ==> last != ')') && (current_state == SBLOCKCOMMENTSTARTEND ==> last == ')') && (current_state == SBLOCKCOMMENTENDEND ==> last == '-') [C15]
+//@   atcall WriteRune nonewline: (current_state == SCOMMENTSTART || current_state == SCOMMENT) ==> arg1 != '\n' [C15]
+//@   atcall WriteRune blank: !defined(curr_ch) && wsByte(arg1) && !(current_state == SSTRING_DOUBLE || current_state == SSTRING_SINGLE || current_state == SSTRING_D_ESCAPE || current_state == SSTRING_S_ESCAPE || current_state == SCOMMENTSTART || current_state == SCOMMENT || current_state == SBLOCKCOMMENT || current_state == SBLOCKCOMMENTSTARTEND || current_state == SBLOCKCOMMENTENDEND || current_state == SBLOCKCOMMENTFINAL) ==> current_state == SWHITESPACE [C15]
 //@   atcall unread_last blockcomment: (current_state == SBLOCKCOMMENT || current_state == SBLOCKCOMMENTSTARTEND || current_state == SBLOCKCOMMENTENDEND) ==> ch == 0 [C15]
 //@   atcall unread_last linecomment: current_state == SCOMMENT ==> ch == 0 || ch == '\n' [C15]
 //@   atcall WriteRune plain: (current_state == SSTRING_DOUBLE || current_state == SSTRING_SINGLE) ==> arg1 == ch [C16]
@@ -678,7 +695,11 @@ package ast
 // ---- binding powers of the Pratt expression parser (C11) ----
 // multiplicative > additive > comparisons > and/or; one level associates to the left (left
 // power below right power); prefix operators bind tighter than every binary operator.
+// lbp/rbp NAME the two results of infixPrecedence for a token type (assumed, definitional)
+//@ specfunc lbp(Int) Int
+//@ specfunc rbp(Int) Int
 //@ func infixPrecedence [C11]
+//@   assumes named: result.0 == lbp(tokenType) && result.1 == rbp(tokenType) [C11]
 //@   ensures leftassoc: isBinTok(tokenType) ==> 0 < result.0 && result.0 < result.1
 //@   ensures mul: (tokenType == MULT || tokenType == DIV || tokenType == MOD) ==> result.0 >= 9 && result.1 <= 10
 //@   ensures add: (tokenType == PLUS || tokenType == MINUS) ==> result.0 >= 7 && result.1 <= 8
